@@ -5,7 +5,7 @@
    evaluating `assignment_ok` on the read_assignments.tsv of real runs over generated annotations and reads. *)
 From Coq Require Import ZArith QArith List Bool.
 From IQ.gen Require Import Tables Prims.
-From IQ Require Import CorrSupport Intervals Junctions JunctionsProofs JunctionsTyping Assigner AssignerEnds AssignerPath.
+From IQ Require Import CorrSupport Intervals Junctions JunctionsProofs JunctionsTyping JunctionsCorrector Assigner AssignerEnds AssignerPath AssignerMatch AssignerMatchProofs AssignerMatchGeom.
 Require IQ.Corrector.
 Import ListNotations. Open Scope Z_scope.
 
@@ -287,6 +287,122 @@ Theorem C01_major_event_blocks_consistent : forall amb outs o e, In o outs -> In
   type_consistent (classify amb (concat (map (map x_type) outs))) = false.
 Proof. exact major_event_blocks_consistent. Qed.
 Print Assumptions C01_major_event_blocks_consistent.
+
+(* ================================================================ (e) the assigner: assign_to_isoform on a read with T's exact intron chain *)
+(* AssignerMatch.assign is the executable model of LongReadAssigner.assign_to_isoform (profiles, match_consistent, select_similar_isoforms,
+   match_inconsistent; float arithmetic abstracted into the parameters SC / sc_* / select_min; the float instance is corresponded with
+   the real method).  exact_match: a read without polyA whose intron chain equals T's and whose ends lie inside T's terminal exons is
+   assigned a consistent type with T among the reported isoforms, every reported isoform being profile-compatible, and uniquely T
+   (type unique) when no other isoform's profile is compatible.  Hypotheses, all needed (refuted witnesses in AssignerMatchGeom.v):
+   gene_ok (distinct ids, exons separated by a base, non-negative coordinates, introns longer than delta), T's internal exons longer
+   than delta (H2), the corner condition on the read ends inside their split-exon blocks (or minimal_exon_overlap <= delta + 1, true for
+   the default preset), delta <= minor_exon_extension, and - only when several isoforms are compatible - that T survives
+   resolve_by_nucleotide_score (score(T) * 1.5 >= best; C01_hscore_of_best_Q: true for the best-scoring isoform with a non-negative score) *)
+Theorem C01_exact_match_reports_T : forall P absd arm (SC:Type) sc_make sc_lt sc_ge_min sc_keeps select_min,
+  0 <= p_delta P -> 0 < p_minimal_exon_overlap P -> 0 <= p_min_abs_exon_overlap P -> p_delta P <= p_minor_ext P ->
+  forall isos g t rex ri rs,
+  mk_gene isos = Some g -> In t isos -> gene_ok (p_delta P) isos = true -> IntervalsSpec.H2 (p_delta P) (i_introns t) = true ->
+  exact_read t rex -> corner_ok (p_minimal_exon_overlap P) (p_delta P) (g_split g) rex ->
+  let r := mkRead rex no_pa in
+  intron_rprof P absd g r = Ok ri -> split_rprof P g r = Ok rs ->
+  (forall l, incl l (compatible_ids P g ri rs r) -> In (i_id t) l ->
+     exists l', resolve P SC sc_make sc_lt sc_ge_min sc_keeps true false r g l = Ok l' /\ In (i_id t) l') ->
+  exists ty ms, assign P absd arm SC sc_make sc_lt sc_ge_min sc_keeps select_min g r = Ok (ty, ms) /\
+    type_consistent ty = true /\ In (i_id t) (map fst ms) /\ incl (map fst ms) (compatible_ids P g ri rs r) /\
+    ((forall id, In id (compatible_ids P g ri rs r) -> id = i_id t) -> ty = RAT_unique /\ map fst ms = [i_id t]).
+Proof. exact exact_match_reports_T_strong. Qed.
+Print Assumptions C01_exact_match_reports_T.
+
+Theorem C01_exact_match_unique : forall P absd arm (SC:Type) sc_make sc_lt sc_ge_min sc_keeps select_min,
+  0 <= p_delta P -> 0 < p_minimal_exon_overlap P -> 0 <= p_min_abs_exon_overlap P -> p_delta P <= p_minor_ext P ->
+  forall isos g t rex ri rs,
+  mk_gene isos = Some g -> In t isos -> gene_ok (p_delta P) isos = true -> IntervalsSpec.H2 (p_delta P) (i_introns t) = true ->
+  exact_read t rex -> corner_ok (p_minimal_exon_overlap P) (p_delta P) (g_split g) rex ->
+  intron_rprof P absd g (mkRead rex no_pa) = Ok ri -> split_rprof P g (mkRead rex no_pa) = Ok rs ->
+  (forall id, In id (compatible_ids P g ri rs (mkRead rex no_pa)) -> id = i_id t) ->
+  exists evs, consistent_events P g ri rs (mkRead rex no_pa) t true = Ok evs /\ (forall e, In e evs -> ev_consistent (x_type e) = true) /\
+    assign P absd arm SC sc_make sc_lt sc_ge_min sc_keeps select_min g (mkRead rex no_pa) = Ok (RAT_unique, [(i_id t, map x_type evs)]).
+Proof. exact exact_match_unique. Qed.
+Print Assumptions C01_exact_match_unique.
+
+(* the profile facts behind it: the read's intron profile marks every read intron matched and, on the gene side, exactly T's introns *)
+Theorem C01_exact_intron_read_profile : forall P absd, 0 <= p_delta P -> 0 < p_minimal_exon_overlap P -> 0 <= p_min_abs_exon_overlap P ->
+  forall isos g t rex,
+  mk_gene isos = Some g -> In t isos -> gene_ok (p_delta P) isos = true -> IntervalsSpec.H2 (p_delta P) (i_introns t) = true -> exact_read t rex ->
+  exists ri, intron_rprof P absd g (mkRead rex no_pa) = Ok ri /\ rp ri = map (fun _ => 1) (jfb rex) /\
+    length (gp ri) = length (g_introns g) /\ prange ri = profile_range_zero (gp ri) /\
+    forall j k, nth_error (g_introns g) j = Some k ->
+      exists v, nth_error (gp ri) j = Some v /\ (v = 1 <-> In k (i_introns t)) /\
+                (v = -1 -> py_overlaps k (i_region t) = true /\ ~ In k (i_introns t)) /\ v <> -2 /\ (v = 1 \/ v = -1 \/ v = 0).
+Proof. exact exact_intron_read_profile. Qed.
+Print Assumptions C01_exact_intron_read_profile.
+
+(* decision layer, from facts about the computed profiles only: a single profile-compatible isoform is reported uniquely; the
+   consistent path never returns an inconsistent type nor a major event *)
+Theorem C01_unique_compatible_reports_T : forall P absd arm (SC:Type) sc_make sc_lt sc_ge_min sc_keeps select_min g r ri rs tid t,
+  g_isos g <> [] -> intron_rprof P absd g r = Ok ri -> split_rprof P g r = Ok rs -> profiles_clean ri rs = true ->
+  rp ri <> [] -> compatible_ids P g ri rs r = [tid] -> t = find_iso g tid ->
+  events_all_consistent (consistent_events P g ri rs r t true) ->
+  exists evs, consistent_events P g ri rs r t true = Ok evs /\
+    assign P absd arm SC sc_make sc_lt sc_ge_min sc_keeps select_min g r = Ok (RAT_unique, [(tid, map x_type evs)]).
+Proof. exact unique_compatible_reports_T. Qed.
+Print Assumptions C01_unique_compatible_reports_T.
+Theorem C01_consistent_path_only_consistent : forall P arm (SC:Type) sc_make sc_lt sc_ge_min sc_keeps g ri rs r ty ms,
+  match_consistent P arm SC sc_make sc_lt sc_ge_min sc_keeps g ri rs r = Ok (Some (ty, ms)) ->
+  rmem ty RAT_is_inconsistent = false /\ type_consistent ty = true /\
+  (forall m t, In m ms -> In t (snd m) -> ev_major t = false) /\ incl (map fst ms) (compatible_ids P g ri rs r).
+Proof. exact major_blocks_consistent_path. Qed.
+Print Assumptions C01_consistent_path_only_consistent.
+(* the score hypothesis of C01_exact_match_reports_T holds, with exact rational scores, for the best-scoring isoform when its score is >= 0 *)
+Theorem C01_hscore_of_best_Q : forall P r g C tid stid,
+  score_of P Q q_make true r (find_iso g tid) = Ok stid ->
+  (forall id, In id C -> exists s, score_of P Q q_make true r (find_iso g id) = Ok s /\ Qle s stid) -> Qle 0 stid ->
+  forall l, incl l C -> In tid l -> exists l', resolve P Q q_make q_lt q_ge_min q_keeps true false r g l = Ok l' /\ In tid l'.
+Proof. exact hscore_of_best_Q. Qed.
+Print Assumptions C01_hscore_of_best_Q.
+
+(* ================================================================ (f) the comparator's events discharge C14's hypothesis *)
+(* comparator_cin = the corrector's input for a read with exons `exons` assigned to the isoform (II, ireg): its first match carries the
+   comparator model's events followed by `extra` events without read region (elongation / polyA / fsm-ism events).  For the REPAIRED
+   ExonCorrector (fixes/C01_fuzzy_junction_keeps_exons.diff, fixes/C14_fake_terminal_exon_drops_restored_microintron.diff) the full
+   decidable hypothesis events_wf of C14's theorems holds, hence the corrected exons are well-formed with NO hypothesis on the events.
+   Hypotheses: read exons well-formed and longer than 2*delta, read introns longer than delta (sizes_ok), isoform junctions well-formed
+   inside their region, delta <= minimal_exon_overlap + 1 when fuzzy-junction and micro-intron correction are both on, fewer than 2^31-1
+   exons / junctions.  Each is needed: JunctionsCorrector.v w2 (short exons), w3 (delta vs minimal_exon_overlap); on the UNREPAIRED code
+   events_wf fails and the output is malformed even with them (w1, w4, w5): C14_fuzzy_junction_unrepaired_refuted etc. *)
+Theorem C01_events_satisfy_corrector_hypothesis : forall P K greg exons ireg II extra orc fl,
+  0 <= p_delta P -> 0 < p_minimal_exon_overlap P ->
+  Corrector.sdg_b exons = true -> exons <> [] -> sizes_ok (p_delta P) exons = true ->
+  junctions_wf II = true -> inside_region ireg II = true ->
+  (Corrector.f_fuzzy fl = true -> Corrector.f_microintron fl = true -> p_delta P <= p_minimal_exon_overlap P + 1) ->
+  lenz exons < absent -> lenz II < absent -> Forall no_read_region extra ->
+  Corrector.events_wf fl (comparator_cin P K greg exons ireg II extra orc) = true.
+Proof. exact events_satisfy_corrector_hypothesis. Qed.
+Print Assumptions C01_events_satisfy_corrector_hypothesis.
+Theorem C01_C14_corrected_exons_wf_unconditional : forall P K greg exons ireg II extra orc fl,
+  0 <= p_delta P -> 0 < p_minimal_exon_overlap P ->
+  Corrector.sdg_b exons = true -> exons <> [] -> sizes_ok (p_delta P) exons = true ->
+  junctions_wf II = true -> inside_region ireg II = true ->
+  (Corrector.f_fuzzy fl = true -> Corrector.f_microintron fl = true -> p_delta P <= p_minimal_exon_overlap P + 1) ->
+  lenz exons < absent -> lenz II < absent -> Forall no_read_region extra ->
+  exists ex, Corrector.correct_assigned_read fl (comparator_cin P K greg exons ireg II extra orc) = Ok ex /\ Corrector.sd_b ex = true.
+Proof. exact corrected_exons_wf_unconditional. Qed.
+Print Assumptions C01_C14_corrected_exons_wf_unconditional.
+(* without the fuzzy-junction flag only the exon sizes matter *)
+Theorem C01_events_satisfy_corrector_hypothesis_nofuzzy : forall P K greg exons ireg II extra orc fl,
+  Corrector.f_fuzzy fl = false -> 0 <= p_delta P -> 0 < p_minimal_exon_overlap P ->
+  Corrector.sdg_b exons = true -> exons <> [] -> forallb (fun e => 2 * p_delta P <? py_interval_len e) exons = true ->
+  junctions_wf II = true -> inside_region ireg II = true -> lenz exons < absent -> lenz II < absent -> Forall no_read_region extra ->
+  Corrector.events_wf fl (comparator_cin P K greg exons ireg II extra orc) = true.
+Proof. exact events_satisfy_corrector_hypothesis_nofuzzy. Qed.
+Print Assumptions C01_events_satisfy_corrector_hypothesis_nofuzzy.
+(* the unrepaired code: a reference splice site beyond the read's last exon inverts it; the repaired choice keeps the read's exons *)
+Example C01_unrepaired_fuzzy_beyond_read_end_refuted :
+  let c := comparator_cin (params_of MS_default) [(1101,1305)] (1000,1500) [(1000,1100);(1300,1304)] (1000,1500) [(1101,1305)] [] [((0,0),(1,0))] in
+  let fl := Corrector.strategy_flags Corrector.St_default_ont in
+  Corrector.correct_assigned_read_v Corrector.unrepaired fl c = Ok [(1000,1100);(1306,1304)] /\
+  Corrector.correct_assigned_read fl c = Ok [(1000,1100);(1300,1304)] /\ sizes_ok 6 [(1000,1100);(1300,1304)] = false.
+Proof. vm_compute. repeat split; reflexivity. Qed.
 
 (* ================================================================ examples: the hypotheses are satisfiable, the corners are real *)
 Definition Pd := params_of MS_default.
